@@ -38,7 +38,7 @@ VARIABLES
     maxGap,
     connectT,    \* [Peers -> time Client::connect was called, -1 if not]
     cNonce,      \* [Peers -> the client's SYN nonce]
-    synSeen,     \* [Peers -> set of [nonce, version, psize, alloc] of SYN frames forwarded to the server]
+    synSeen,     \* [Peers -> set of [nonce, version, psize, alloc, rate, len] of SYN frames forwarded to the server]
     synCount,    \* [Peers -> number of SYN frames the client put on the wire]
     curSynack,   \* [Peers -> [nonce, nonce_ack] of the latest new SYN-ACK the server sent to that address]
     ackFwd,      \* [Peers -> set of nonce_ack values of ACK frames forwarded to the server from that address]
@@ -80,7 +80,8 @@ InitVals ==
     /\ trackedPrev = 0 /\ trackedBefore = 0 /\ synThisStep = {} /\ synLastStep = {}
 
 Init == l = 1 /\ InitVals /\ bad = {} /\ seenWhy = {}
-            /\ cfg = [max_active |-> 1, max_total |-> 1, lossfree |-> FALSE, steady |-> FALSE, server |-> [timeout |-> 20000, keepalive |-> -1, max_packet_size |-> 0, max_receive_alloc |-> 0]]
+            /\ cfg = [max_active |-> 1, max_total |-> 1, lossfree |-> FALSE, steady |-> FALSE, crate |-> [p \in Peers |-> 0],
+                     server |-> [timeout |-> 20000, keepalive |-> -1, max_packet_size |-> 0, max_receive_alloc |-> 0, max_send_rate |-> 0, max_receive_rate |-> 0]]
 
 Reset ==
     /\ IsEvent("Reset")
@@ -95,7 +96,7 @@ Reset ==
     /\ sentOn' = [k \in Keys |-> FALSE] /\ relWait' = [k \in Keys |-> {}] /\ mustDeliver' = [k \in Keys |-> {}] /\ discAt' = [k \in Keys |-> -1] /\ discCount' = [k \in Keys |-> 0] /\ nData' = [k \in Keys |-> 0]
     /\ bytesIn' = [p \in Peers |-> 0] /\ bytesOut' = [p \in Peers |-> 0] /\ verified' = [p \in Peers |-> FALSE]
     /\ trackedPrev' = 0 /\ trackedBefore' = 0 /\ synThisStep' = {} /\ synLastStep' = {}
-    /\ cfg' = [max_active |-> Cur.max_active, max_total |-> Cur.max_total, lossfree |-> Cur.lossfree, steady |-> Cur.steady, server |-> Cur.server]
+    /\ cfg' = [max_active |-> Cur.max_active, max_total |-> Cur.max_total, lossfree |-> Cur.lossfree, steady |-> Cur.steady, crate |-> [p \in Peers |-> 0], server |-> Cur.server]
     /\ UNCHANGED bad
 
 UNCH(S) == UNCHANGED S
@@ -107,8 +108,9 @@ AppConnect ==
        /\ connectT' = [connectT EXCEPT ![p] = Cur.t]
        /\ T' = [T EXCEPT ![K("C", p)] = Cur.timeout]
        /\ ka' = [ka EXCEPT ![K("C", p)] = Cur.keepalive]
+       /\ cfg' = [cfg EXCEPT !.crate[p] = Cur.max_send_rate]
     /\ UNCHANGED <<st, closing, lastHeard, inbox, lastStep, maxGap, cNonce, synSeen, synCount, curSynack, ackFwd, srvIssued, cliAcked, used, sAccepted, cAccepted, errFwd,
-                   sentOn, relWait, mustDeliver, discAt, discCount, nData, bytesIn, bytesOut, verified, trackedPrev, trackedBefore, synThisStep, synLastStep, cfg, bad>>
+                   sentOn, relWait, mustDeliver, discAt, discCount, nData, bytesIn, bytesOut, verified, trackedPrev, trackedBefore, synThisStep, synLastStep, bad>>
 
 App ==
     /\ IsEvent("App")
@@ -190,13 +192,38 @@ Fwd ==
        /\ bytesIn' = IF toS THEN [bytesIn EXCEPT ![p] = @ + Cur.len] ELSE bytesIn
        /\ inbox' = [inbox EXCEPT ![k] = Append(@, Cur)]
        /\ synSeen' = IF toS /\ Cur.type = "SYN"
-                     THEN [synSeen EXCEPT ![p] = @ \cup {[nonce |-> Nonce(Cur, "nonce", "nonce_lsb"), version |-> Cur.version, psize |-> Cur.max_packet_size, alloc |-> Cur.max_receive_alloc, len |-> Cur.len]}]
+                     THEN [synSeen EXCEPT ![p] = @ \cup {[nonce |-> Nonce(Cur, "nonce", "nonce_lsb"), version |-> Cur.version, psize |-> Cur.max_packet_size, alloc |-> Cur.max_receive_alloc, rate |-> Cur.max_receive_rate, len |-> Cur.len]}]
                      ELSE synSeen
        /\ synThisStep' = IF toS /\ Cur.type = "SYN" THEN synThisStep \cup {p} ELSE synThisStep
        /\ ackFwd' = IF toS /\ Cur.type = "ACK" THEN [ackFwd EXCEPT ![p] = @ \cup {Nonce(Cur, "nonce_ack", "nonce_ack_lsb")}] ELSE ackFwd
        /\ errFwd' = IF ~toS /\ Cur.type = "ERR" THEN [errFwd EXCEPT ![p] = @ \cup {<<Nonce(Cur, "nonce_ack", "nonce_ack_lsb"), Cur.err>>}] ELSE errFwd
     /\ UNCHANGED <<st, closing, T, ka, lastHeard, lastStep, maxGap, connectT, cNonce, synCount, curSynack, srvIssued, cliAcked, used, sAccepted, cAccepted,
                    sentOn, relWait, mustDeliver, discAt, discCount, nData, bytesOut, verified, trackedPrev, trackedBefore, synLastStep, cfg, bad>>
+
+
+(* The limits an end holds for the connection it has just reported (logged right after its Connect event, through the
+   cfg(uflow_verif) accessor): "both ends agreeing on ... negotiated limits" - each must be what the peer advertised in
+   the handshake frame this end accepted: the send allocation is the peer's max_receive_alloc (in whole fragments), the
+   rate ceiling the smaller of the local max_send_rate and the peer's max_receive_rate. *)
+FragCeil(n) == ((n + 1447) \div 1448) * 1448
+Clip(n) == IF n > 2000000000 THEN 2000000000 ELSE n
+Min2(a, b) == IF a < b THEN a ELSE b
+Limits ==
+    /\ IsEvent("Limits")
+    /\ LET side == IF Cur.ep = "s" THEN "S" ELSE "C"
+           p == IF Cur.ep = "s" THEN Cur.peer ELSE Cur.ep
+           k == K(side, p)
+           syn == {y \in synSeen[p] : y.nonce = curSynack[p].nonce_ack /\ y.len >= 1472}
+           q == inbox[k]
+           I == {i \in 1..Len(q) : q[i].type = "SYNACK" /\ Nonce(q[i], "nonce_ack", "nonce_ack_lsb") = cNonce[p]}
+           okS == \E y \in syn : Clip(FragCeil(y.alloc)) = Cur.tx_alloc /\ Cur.rate = Min2(cfg.server.max_send_rate, y.rate)
+           okC == LET i == CHOOSE x \in I : \A z \in I : x <= z IN
+                  Clip(FragCeil(q[i].max_receive_alloc)) = Cur.tx_alloc /\ Cur.rate = Min2(cfg.crate[p], q[i].max_receive_rate)
+       IN bad' = bad
+            \cup (IF side = "S" /\ syn # {} /\ ~okS THEN Flag("C07", "negotiated-limits-differ-from-what-the-peer-advertised") ELSE {})
+            \cup (IF side = "C" /\ I # {} /\ ~okC THEN Flag("C07", "negotiated-limits-differ-from-what-the-peer-advertised") ELSE {})
+    /\ UNCHANGED <<st, closing, T, ka, lastHeard, inbox, lastStep, maxGap, connectT, cNonce, synSeen, synCount, curSynack, ackFwd, srvIssued, cliAcked, used, sAccepted, cAccepted, errFwd,
+                   sentOn, relWait, mustDeliver, discAt, discCount, nData, bytesIn, bytesOut, verified, trackedPrev, trackedBefore, synThisStep, synLastStep, cfg>>
 
 \* ------------------------------------------------------------------------------------------- events
 FirstSynackFor(q, mine) ==   \* nonce of the first SYN-ACK in the inbox that echoes `mine`
@@ -336,7 +363,7 @@ Skip ==
     /\ UNCHANGED <<st, closing, T, ka, lastHeard, inbox, lastStep, maxGap, connectT, cNonce, synSeen, synCount, curSynack, ackFwd, srvIssued, cliAcked, used, sAccepted, cAccepted, errFwd,
                    sentOn, relWait, mustDeliver, discAt, discCount, nData, bytesIn, bytesOut, verified, trackedPrev, trackedBefore, synThisStep, synLastStep, cfg, bad>>
 
-Next == /\ (Reset \/ AppConnect \/ App \/ Wire \/ Fwd \/ Event \/ StepEnd \/ Skip)
+Next == /\ (Reset \/ AppConnect \/ App \/ Wire \/ Fwd \/ Event \/ Limits \/ StepEnd \/ Skip)
         /\ seenWhy' = IF Rec[l].ev = "Reset" THEN {} ELSE seenWhy \cup {<<b[1], b[2]>> : b \in bad' \ bad}
 Spec == Init /\ [][Next]_vars
 
